@@ -6,3 +6,4 @@ import RSVerif.Properties.C17
 #print axioms RS.allocs_count
 #print axioms RS.one_allocation
 #print axioms RS.source_reset
+#print axioms RS.source_rounds_never_resize
